@@ -1,5 +1,9 @@
 import QP.Model.PT
 import QP.Proofs.PTExamples
+import QP.Proofs.PTTop2
+import QP.Proofs.PTTop3
+import QP.Proofs.PTSingle
+import QP.Proofs.PTTopA
 import QP.Proofs.PTTable
 /-!
 # C01 — an instantiated program plays exactly the voltages the template describes
@@ -10,63 +14,136 @@ Full statement (DESIGN 4/C01), for every template `pt` and every `to_single_wave
       ∃ P, denoteTop pt params mm cm = .ok P ∧ channels prog = P.chanNames ∧
         ∀ c ∈ P.chanNames, ∀ t, 0 ≤ t → t < P.dur → prog.sample c t = some ((P.val c).at t)
 
-Proved here (`_partial`): the statement for the stage-1 constructor subset `Stage1` (constant and function
-atoms composed by sequencing, repetition, indexed iteration and parameter / channel / measurement mapping),
-without a global transformation and without `to_single_waveform`, for programs all of whose pieces have
-positive duration, *given* that the denotation exists (`denoteTop … = .ok P`; the existence of `P` is not
-proved: the denotation additionally demands affine function expressions that evaluate, and equal channel sets
-of sequenced parts).  Table / point / multi-channel / arithmetic atoms, parallel
-channels, scalar arithmetic, time reversal and the single-waveform collapse are covered by the
-correspondence + judge only; `builder_correct_over_atoms` shows that the builder part of the proof does not
-depend on which atoms are used.
+Proved here (`_partial`, see notes/C01.md for the table): the statement
+* for `Stage3` — constant, function, table, point atoms and `AtomicMultiChannelPT`s of them, composed by sequencing,
+  repetition, indexed iteration, mapping, `ParallelChannelPT` and `ArithmeticPT` (scalar) in any nesting — exactly
+  outside the class of PF-11 (`compile_correct_partial`), under any global transformation
+  (`compile_correct_under_trafo`, `compile_correct_global_trafo_partial`) and for every `to_single_waveform` set
+  (`compile_correct_single_partial`, through C05's `collapse_invariant_partial`);
+* for `Stage1R` — constant and function atoms with `TimeReversalPT` in any nesting — with the judge's tolerance at
+  junctions inside reversed parts (`compile_correct_reversal_partial`);
+always for programs all of whose pieces have positive duration and *given* that the denotation exists
+(`denoteTop … = .ok P`; its existence is not proved: the denotation additionally demands affine function expressions
+that evaluate, and equal channel sets of sequenced parts).  `ArithmeticAtomicPT`, wrappers in atomic context and time
+reversal over table-like atoms are covered by the correspondence + judge only; `builder_correct_over_atoms` shows
+that the builder part of the proof does not depend on which atoms are used.
 -/
 namespace QP.Props.C01
 open QP.PT
 
-/-- **compile correctness (partial)**: for a stage-1 template the compiled program, sampled anywhere in
-`[0, duration)`, yields on every channel of the denoted pulse exactly the denoted voltage — a value, never NaN —
-and every played piece defines exactly the channels of the denoted pulse (dropped channels absent, no other
-channel appears). -/
-theorem compile_correct_partial {pt : PT} (hs : Stage1 pt) (params : List (String × Rat))
+/-- **compile correctness (partial)**: for a stage-3 template (`Stage3`: constant, function, table atoms and
+`AtomicMultiChannelPT`s of them, composed by sequencing, repetition, indexed iteration, mapping,
+`ParallelChannelPT` and `ArithmeticPT` with a scalar, in any nesting) **outside the class of the open finding
+PF-11** (`inPF11 … = false`: no channel overwritten by a `ParallelChannelPT` is touched by a transformation of an
+enclosing template), the compiled program, sampled anywhere in `[0, duration)`, yields on every channel of the
+denoted pulse exactly the denoted voltage — a value, never NaN — and every played piece defines exactly the
+channels of the denoted pulse (dropped channels absent, overwritten channels present, no other channel). -/
+theorem compile_correct_partial {pt : PT} (hs : Stage3 pt) (params : List (String × Rat))
+    (mm : Option (List (MName × Option MName))) (cm : List (Chan × Option Chan)) (prog : Loop) (P : Pulse)
+    (hpf : inPF11 pt (topCm pt cm) = false)
+    (hprog : createProgram pt params mm cm [] = .ok (some prog))
+    (hden : denoteTop pt params mm cm = .ok P) (hpos : prog.allPos) :
+    (∀ cs ∈ prog.leafChannels, ∀ x, x ∈ cs ↔ x ∈ P.chanNames) ∧
+    ∀ c pl, P.chans.lookup c = some pl → ∀ t, 0 ≤ t → t < P.dur →
+      ∃ v, prog.sample c t = some v ∧ PL.at pl t = some v := by
+  obtain ⟨_, hsample, _, hch, hplDur⟩ := createProgram_relT hs params mm cm prog P hpf hprog hden hpos
+  refine ⟨hch, ?_⟩
+  intro c pl hc t ht0 ht
+  have := hsample c pl hc t ht0 ht
+  -- the denoted function is defined on the whole of `[0, duration)`
+  obtain ⟨v, hv⟩ := PL.at_isSome pl t ht0 (by rw [hplDur c pl hc]; exact ht)
+  exact ⟨v, by rw [this, hv], hv⟩
+
+/-- the same without parallel channels / arithmetic (`Stage2`): no exclusion is needed -/
+theorem compile_correct_stage2 {pt : PT} (hs : Stage2 pt) (params : List (String × Rat))
     (mm : Option (List (MName × Option MName))) (cm : List (Chan × Option Chan)) (prog : Loop) (P : Pulse)
     (hprog : createProgram pt params mm cm [] = .ok (some prog))
     (hden : denoteTop pt params mm cm = .ok P) (hpos : prog.allPos) :
     (∀ cs ∈ prog.leafChannels, ∀ x, x ∈ cs ↔ x ∈ P.chanNames) ∧
     ∀ c pl, P.chans.lookup c = some pl → ∀ t, 0 ≤ t → t < P.dur →
       ∃ v, prog.sample c t = some v ∧ PL.at pl t = some v := by
-  refine ⟨(createProgram_rel hs params mm cm prog P hprog hden hpos).2.2.2, ?_⟩
+  obtain ⟨_, hsample, _, hch, hplDur⟩ := createProgram_rel_basic hs.basic params mm cm prog P hprog hden hpos
+  refine ⟨hch, ?_⟩
   intro c pl hc t ht0 ht
-  obtain ⟨_, hsample, _⟩ := createProgram_rel hs params mm cm prog P hprog hden hpos
   have := hsample c pl hc t ht0 ht
-  -- the denoted function is defined on the whole of `[0, duration)`
-  have hrel : ∃ v, PL.at pl t = some v := by
-    simp only [createProgram, bind_ok, pure_ok] at hprog
-    obtain ⟨ctx, hctx, items, hitems, hp⟩ := hprog
-    simp only [denoteTop, bind_ok] at hden
-    obtain ⟨ctx', hctx', h2⟩ := hden
-    rw [hctx] at hctx'; cases hctx'
-    obtain ⟨hsingle, htrafo⟩ := topCtx_ok hctx
-    have hctx0 : ctx = ctx0 ctx.scope ctx.mm ctx.cm := by
-      cases ctx; simp only [ctx0] at *; simp [hsingle, htrafo]
-    unfold compile at hitems
-    rw [wrapSingle_nil _ _ _ hsingle, hctx0] at hitems
-    have hposl : Loop.allPosList (nodesOf items) := by
-      unfold toProgram at hp
-      simp only [rootLoop, applyItems_eq, List.nil_append, Loop.durationList] at hp
-      by_cases he : (Loop.mk 1 none (measW items 0) (nodesOf items)).isEmpty
-      · simp [he] at hp
-      · simp only [he, Bool.false_eq_true, if_false, Option.some.injEq] at hp
-        subst hp
-        cases hcs : nodesOf items with
-        | nil => exact allPosList_nil
-        | cons c0 cs0 =>
-          rw [hcs] at hpos
-          simp only [Loop.allPos, Loop.allPosB, Bool.and_eq_true] at hpos
-          exact hpos.2
-    have hr := compile_rel hs.basic ctx.scope ctx.mm ctx.cm items P hitems h2 hposl
-    exact PL.at_isSome pl t ht0 (by rw [hr.plDur c pl hc]; exact ht)
-  obtain ⟨v, hv⟩ := hrel
+  obtain ⟨v, hv⟩ := PL.at_isSome pl t ht0 (by rw [hplDur c pl hc]; exact ht)
   exact ⟨v, by rw [this, hv], hv⟩
+
+/-- **under a global transformation**: what a stage-3 template compiles to inside a context that carries the chain
+`T` (pushed by enclosing arithmetic / parallel-channel templates) plays `T` applied, channel by channel, to the
+denoted pulse — provided no transformation of `T` or below touches an overwritten channel (`pf11Chans … = []`). -/
+theorem compile_correct_under_trafo {pt : PT} (hs : Stage3 pt) : CompileOKT pt := compile_relT hs.basicT
+
+/-- **`create_program(global_transformation = T)`**: the program of a stage-3 template plays the chain `T` applied,
+channel by channel (`Chain.chanF`: `none` = channel absent), to the denoted pulse, for every chain of offset / scaling /
+parallel-constant transformations — outside PF-11 relative to the channels `T` names. -/
+theorem compile_correct_global_trafo_partial {pt : PT} (hs : Stage3 pt) (params : List (String × Rat))
+    (mm : Option (List (MName × Option MName))) (cm : List (Chan × Option Chan)) (T : Chain) (prog : Loop) (P : Pulse)
+    (hpf : pf11Chans pt (topCm pt cm) (Chain.keys T) = [])
+    (hprog : QP.C05.createProgramT pt params mm cm [] T = .ok (some prog)) (hden : denoteTop pt params mm cm = .ok P)
+    (hpos : prog.allPos) :
+    prog.duration = P.dur ∧
+    (∀ c t, 0 ≤ t → t < P.dur → ∀ v, QP.C05.Chain.chanF T c (P.val c t) = some v → prog.sample c t = v) ∧
+    (∀ cs ∈ prog.leafChannels, ∀ x, x ∈ cs ↔ QP.C05.Chain.presF T x (P.chanNames.contains x) = true) := by
+  obtain ⟨h1, h2, _, h4⟩ := createProgramT_rel hs params mm cm T prog P hpf hprog hden hpos
+  exact ⟨h1, h2, h4⟩
+
+/-- **every `to_single_waveform` set**: the default program is correct (`compile_correct_partial`) and collapsing
+sub-templates into single waveforms changes nothing observable (C05 `collapse_invariant_partial`), so the program
+compiled with any set `S` plays the denoted pulse too — per channel `c` of the pulse, outside PF-11 and outside C05's
+exclusion class `cleanW` (PF-11 below a collapsed template, time reversal around a collapsed template), under C05's
+output-checkable side conditions `tidy c` on the sequence waveforms of the two programs. -/
+theorem compile_correct_single_partial {pt : PT} (hs : Stage3 pt) (params : List (String × Rat))
+    (mm : Option (List (MName × Option MName))) (cm : List (Chan × Option Chan)) (S : List String)
+    (prog0 progS : Loop) (P : Pulse)
+    (hpf : inPF11 pt (topCm pt cm) = false)
+    (h0 : createProgram pt params mm cm [] = .ok (some prog0)) (hpos : prog0.allPos)
+    (hS : createProgram pt params mm cm S = .ok (some progS))
+    (hden : denoteTop pt params mm cm = .ok P)
+    (hclean : QP.C05.cleanW S false false pt = true)
+    (c : Chan) (pl : PL) (hc : P.chans.lookup c = some pl)
+    (ht0 : QP.C05.allLeaves (QP.C05.tidy c) prog0 = true) (htS : QP.C05.allLeaves (QP.C05.tidy c) progS = true) :
+    progS.duration = P.dur ∧
+    QP.C05.allLeaves (fun x => x.channels.contains c) progS = true ∧
+    ∀ t, 0 ≤ t → t < P.dur → progS.sample c t = PL.at pl t := by
+  obtain ⟨h1, _, h3, h4⟩ := createProgram_single hs params mm cm S prog0 progS P hpf h0 hpos hS hden hclean c pl hc ht0 htS
+  exact ⟨h1, h3, h4⟩
+
+/-- **time reversal, with the judge's junction tolerance**: for constant and function atoms composed by sequencing,
+repetition, indexed iteration, mapping **and `TimeReversalPT`** in any nesting (`Stage1R`), every sample of the
+compiled program in `[0, duration)` is a value — never NaN — that the judge admits for the denoted pulse
+(`PL.adm`, see `judge_is_at` / `judge_contains_at`: the right-open value of the piecewise linear function, and at a
+junction inside a time reversed part also the left limit).  The proof carries the mirror image along (left-closed
+playback `Loop.sampleL` against left-closed evaluation `PL.atL`); `Loop.reverse_inplace` exchanges the two
+(`rev_sample`, `rev_sampleL` for every program tree with positive pieces). -/
+theorem compile_correct_reversal_partial {pt : PT} (hs : Stage1R pt) (params : List (String × Rat))
+    (mm : Option (List (MName × Option MName))) (cm : List (Chan × Option Chan)) (prog : Loop) (P : Pulse)
+    (hprog : createProgram pt params mm cm [] = .ok (some prog))
+    (hden : denoteTop pt params mm cm = .ok P) (hpos : prog.allPos) :
+    prog.duration = P.dur ∧
+    ∀ c pl, P.chans.lookup c = some pl → ∀ t, 0 ≤ t → t < P.dur →
+      ∃ v, prog.sample c t = some v ∧ v ∈ PL.adm none pl t :=
+  createProgram_relA hs params mm cm prog P hprog hden hpos
+
+/-- `Loop.reverse_inplace` plays the original backwards: right-open playback of the reversed program at `t` is
+left-closed playback of the original at `duration - t` — for every program tree whose pieces have positive
+duration -/
+theorem reverse_plays_backwards (l : Loop) (h : l.allPos) (c : Chan) (t : Rat) (h0 : 0 ≤ t) (h1 : t < l.duration) :
+    l.reverseInplace.sample c t = l.sampleL c (l.duration - t) := rev_sample c l h t h0 h1
+
+/-- the reversed piecewise linear function, evaluated right-open at `t`, is the original evaluated left-closed at
+`duration - t`; and the original's right-open value there is admitted by the judge as well -/
+theorem reversed_function (p : PL) (hp : p.pos) (t : Rat) (h0 : 0 ≤ t) (h1 : t < PL.dur p) :
+    PL.at p.reversed t = PL.atL p (PL.dur p - t) ∧
+    (0 < t → ∃ v, PL.at p (PL.dur p - t) = some v ∧ v ∈ PL.adm none p.reversed t) := by
+  refine ⟨by rw [PL.at_reversed]; exact PL.at_revAmb p hp t h0 h1, ?_⟩
+  intro ht
+  obtain ⟨v, hv, hmem⟩ := PL.adm_revAmb p hp none (PL.dur p - t) (by linarith) (by linarith)
+  refine ⟨v, hv, ?_⟩
+  rw [PL.adm_none_reversed]
+  have e : PL.dur p - (PL.dur p - t) = t := by ring
+  rw [e] at hmem
+  exact hmem
 
 /-- **the builder is correct whatever the atoms are**: sequences, repetitions, iterations and mappings of
 atomic templates that satisfy the relation `Rel` (leaf and windows = denoted pulse) satisfy it again — this is
@@ -118,22 +195,35 @@ theorem guard_keeps_nodes (ms : List Window) (items : List Item) : nodesOf (guar
 /-! ## Non-vacuity: the hypotheses of `compile_correct_partial` are satisfiable
 (`QP/Proofs/PTExamples.lean` evaluates `createProgram`, `denoteTop` and `allPos` on `exPt`) -/
 
-example : Stage1 (.seq none [exPt, .rep none exPt (.var "n") [] []] [] []) :=
-  Stage1.seq (by
+example : Stage2 (.seq none [exPt, .rep none exPt (.var "n") [] []] [] []) :=
+  Stage2.seq (by
     intro p hp
     simp only [List.mem_cons, List.not_mem_nil, or_false] at hp
     rcases hp with rfl | rfl
-    · exact Stage1.const
-    · exact Stage1.rep Stage1.const)
+    · exact Stage2.atom AtomTree.const
+    · exact Stage2.rep (Stage2.atom AtomTree.const))
 
 example : ∃ prog P, createProgram exPt [] none [] [] = .ok (some prog) ∧ denoteTop exPt [] none [] = .ok P ∧
     prog.allPos := ⟨exProg, _, exPt_program, exPt_denote, exProg_allPos⟩
+
+/-- a parallel-channel template below an arithmetic one, outside PF-11: in the scope of `compile_correct_partial` -/
+example : Stage3 pf11SafePt ∧ inPF11 pf11SafePt (topCm pf11SafePt []) = false :=
+  ⟨Stage3.arith (Stage3.parallel (Stage3.atom AtomTree.func)) (by
+    intro x hx
+    simp only [List.mem_singleton] at hx
+    subst hx
+    decide), by decide⟩
+
+/-- the PF-11 witness is a stage-3 template; the only hypothesis of `compile_correct_partial` it violates is the
+class predicate -/
+example : Stage3 pf11Pt ∧ inPF11 pf11Pt (topCm pf11Pt []) = true :=
+  ⟨Stage3.arith (Stage3.parallel (Stage3.atom AtomTree.func)) trivial, by decide⟩
 
 /-! ## PF-11 (open finding): `ParallelChannelPulseTemplate` chains `(global, parallel)`
 
 The full statement is **false** of the code: a channel overwritten by a `ParallelChannelPT` that lies below an
 `ArithmeticPT` (or another `ParallelChannelPT`) touching that channel does not see the enclosing
-transformation.  `Stage1` contains neither constructor, so `compile_correct_partial` is outside the class;
+transformation.  `compile_correct_partial` assumes `inPF11 … = false`, i.e. is stated for exactly the complement of the class;
 `inPF11` is the class predicate the harness uses (`ptcheck.pf11_channels`). -/
 
 /-- **PF-11, the negation of the full statement on the witness** `2 * ParallelChannelPT(FunctionPT('t', 2, 'A'),
